@@ -49,6 +49,9 @@ def layout(fmt, A=None):
     off = 0
     for cnt, ch in re.findall(r'(\d*)([xcbB?hHiIlLqQs])', f[1:]):
         w = struct.calcsize('>' + ch)
+        if ch == 'x':
+            off += int(cnt) if cnt else 1       # pad octets: skipped by unpack, written as zero by pack - no value on either side
+            continue
         if ch == 's':
             out.append((off, int(cnt) if cnt else 1))
             off += int(cnt) if cnt else 1
@@ -207,7 +210,7 @@ REGISTRY = {'SA': 'PayloadSA', 'KE': 'PayloadKE', 'IDi': 'PayloadIDi', 'IDr': 'P
             'TSr': 'PayloadTSr', 'SK': 'PayloadSK', 'DELETE': 'PayloadDELETE'}
 
 
-def check_fixed(ctx, title, cls, dfn, di, efn, ei, fields, A=None):
+def check_fixed(ctx, title, cls, dfn, di, efn, ei, fields, A=None, rule='W1'):
     dfi, efi = cls.lookup(dfn), cls.lookup(efn)
     ctx.require(dfi is not None and efi is not None, 'anchor vanished: %s.%s/%s' % (cls.qual, dfn, efn))
     D, E = ctx.sval(dfi), ctx.sval(efi)
@@ -225,14 +228,14 @@ def check_fixed(ctx, title, cls, dfn, di, efn, ei, fields, A=None):
     dl, dsize = layout(fmt, A)
     el, esize = layout(efmt, A)
     want_size = sum(w for _, w, _ in fields)
-    ctx.check(dsize == want_size, 'W1', '%s: the decoder reads the %d fixed octets at the start (%s)' % (title, want_size, fmt),
-              key=('W1', title, 'decode-size'), site=dsite, detail={'found': dsize})
-    ctx.check(esize == want_size, 'W1', '%s: the encoder writes %d fixed octets (%s)' % (title, want_size, efmt),
-              key=('W1', title, 'encode-size'), site=esite, detail={'found': esize})
-    ctx.check(len(eargs) == len(el), 'W1', '%s: encoder supplies one value per field' % title, key=('W1', title, 'encode-arity'), site=esite)
+    ctx.check(dsize == want_size, rule, '%s: the decoder reads the %d fixed octets at the start (%s)' % (title, want_size, fmt),
+              key=(rule, title, 'decode-size'), site=dsite, detail={'found': dsize})
+    ctx.check(esize == want_size, rule, '%s: the encoder writes %d fixed octets (%s)' % (title, want_size, efmt),
+              key=(rule, title, 'encode-size'), site=esite, detail={'found': esize})
+    ctx.check(len(eargs) == len(el), rule, '%s: encoder supplies one value per field' % title, key=(rule, title, 'encode-arity'), site=esite)
     ap = attr_params(ctx, cls)
     rets = ctor_returns(ctx, cls, dfi)
-    ctx.check(bool(rets), 'W1', '%s: the decoder returns the decoded object' % title, key=('W1', title, 'decode-arity'), site=dsite)
+    ctx.check(bool(rets), rule, '%s: the decoder returns the decoded object' % title, key=(rule, title, 'decode-arity'), site=dsite)
     used = set()
     for t in all_terms(D):
         used |= indices_in(t, U.term)
@@ -244,14 +247,16 @@ def check_fixed(ctx, title, cls, dfn, di, efn, ei, fields, A=None):
             continue
         dd, ee = dmap.get(o), emap.get(o)
         what = role if isinstance(role, str) else role[1]
-        ctx.check(dd is not None and dd[0] == w, 'W1', '%s: decoder has a %d-octet field at offset %d (%s)' % (title, w, o, what),
-                  key=('W1', title, 'decode-field', o), site=dsite, detail={'layout': dl})
-        ctx.check(ee is not None and ee[0] == w, 'W1', '%s: encoder has a %d-octet field at offset %d (%s)' % (title, w, o, what),
-                  key=('W1', title, 'encode-field', o), site=esite, detail={'layout': el})
+        ctx.check(dd is not None and dd[0] == w, rule, '%s: decoder has a %d-octet field at offset %d (%s)' % (title, w, o, what),
+                  key=(rule, title, 'decode-field', o), site=dsite, detail={'layout': dl})
+        ctx.check(ee is not None and ee[0] == w, rule, '%s: encoder has a %d-octet field at offset %d (%s)' % (title, w, o, what),
+                  key=(rule, title, 'encode-field', o), site=esite, detail={'layout': el})
+        if ee is not None:
+            named_e.add(o)
+        if dd is not None:
+            named_d.add(o)
         if dd is None or ee is None or dd[0] != w or ee[0] != w:
             continue
-        named_d.add(o)
-        named_e.add(o)
         if isinstance(role, str):
             # which attributes receive U[i] ?
             at = set()
@@ -259,26 +264,26 @@ def check_fixed(ctx, title, cls, dfn, di, efn, ei, fields, A=None):
                 for prm, t in args.items():
                     if dd[1] in indices_in(t, U.term):
                         at |= {a for a, p_ in ap.items() if p_ == prm}
-            ctx.check(at == {role}, 'W1', '%s: the value decoded at offset %d becomes attribute `%s`' % (title, o, role),
-                      key=('W1', title, 'decode-flow', o), site=dsite, detail={'flows to': sorted(at)})
+            ctx.check(at == {role}, rule, '%s: the value decoded at offset %d becomes attribute `%s`' % (title, o, role),
+                      key=(rule, title, 'decode-flow', o), site=dsite, detail={'flows to': sorted(at)})
             es = ee[1]
             me = ('attr', ('param', 'self'), role)
-            ctx.check(es in (me, ('attr', me, 'packed')), 'W1', '%s: the encoder writes attribute `%s` at offset %d' % (title, role, o),
-                      key=('W1', title, 'encode-attr', o), site=esite, detail={'found': tq.text(es) if es is not None else None})
+            ctx.check(es in (me, ('attr', me, 'packed')), rule, '%s: the encoder writes attribute `%s` at offset %d' % (title, role, o),
+                      key=(rule, title, 'encode-attr', o), site=esite, detail={'found': tq.text(es) if es is not None else None})
         else:
-            ctx.check(dd[1] in used, 'W1', '%s: the decoder keeps the %s field at offset %d' % (title, role[0], o),
-                      key=('W1', title, 'decode-size-kept', o), site=dsite)
+            ctx.check(dd[1] in used, rule, '%s: the decoder keeps the %s field at offset %d' % (title, role[0], o),
+                      key=(rule, title, 'decode-size-kept', o), site=dsite)
             es = ee[1]
-            ctx.check(es is not None and same(es, E.expr(role[1])), 'W1', '%s: the encoder writes %s at offset %d' % (title, role[1], o),
-                      key=('W1', title, 'encode-size', o), site=esite, detail={'found': tq.text(es) if es is not None else None})
+            ctx.check(es is not None and same(es, E.expr(role[1])), rule, '%s: the encoder writes %s at offset %d' % (title, role[1], o),
+                      key=(rule, title, 'encode-size', o), site=esite, detail={'found': tq.text(es) if es is not None else None})
     for o, (w, i) in dmap.items():
         if o not in named_d:
-            ctx.check(i not in used, 'W1', '%s: RESERVED octets at offset %d are ignored by the decoder' % (title, o),
-                      key=('W1', title, 'reserved-decoded', o), site=dsite)
+            ctx.check(i not in used, rule, '%s: RESERVED octets at offset %d are ignored by the decoder' % (title, o),
+                      key=(rule, title, 'reserved-decoded', o), site=dsite)
     for o, (w, a) in emap.items():
         if o not in named_e:
-            ctx.check(a == const(0), 'W1', '%s: RESERVED octets at offset %d are sent as zero' % (title, o),
-                      key=('W1', title, 'reserved-encoded', o), site=esite, detail={'found': tq.text(a) if a is not None else None})
+            ctx.check(a == const(0), rule, '%s: RESERVED octets at offset %d are sent as zero' % (title, o),
+                      key=(rule, title, 'reserved-encoded', o), site=esite, detail={'found': tq.text(a) if a is not None else None})
 
 
 def registry_consistent(ctx, rule):
@@ -393,6 +398,7 @@ def run(ctx):
     check_notify_proposal_delete(ctx)
     check_ts(ctx)
     check_transform_attr(ctx)
+    ah_esp_spi_width(ctx, 'W2')
     check_substructures(ctx)
     check_header(ctx, esc)
     check_generic_header(ctx, esc)
@@ -444,6 +450,48 @@ def fixed_unpack(ctx, fi):
     ups = [c for c in unpack_calls(D) if upos(c)[1] == dparam and upos(c)[2] in (None, const(0))]
     ctx.require(len(ups) >= 1, 'anchor vanished: fixed-part unpack of %s' % fi.qual)
     return D, dparam, ups[0]
+
+
+def ah_esp_spi_width(ctx, rule):
+    """RFC 7296 3.3.1: the SPI of an AH / ESP proposal is 4 octets long.  The decoder hands out no such proposal with another SPI
+    size: every return of Proposal.parse is excluded, by the conditions on its path that speak about the protocol and SPI size
+    octets, for (AH or ESP, size != 4).  The SPI goes into the 4-octet `spi` field of the kernel's SA identifier; with another
+    length building that structure raises a TypeError that none of the NetlinkError handlers sees (installation *and* removal)."""
+    c = ctx.prog.cls(M + 'Proposal')
+    pf = c.lookup('parse')
+    D, d, U = fixed_unpack(ctx, pf)
+    rets = ctor_returns(ctx, c, pf)
+    ctx.floor('%s returns of Proposal.parse' % rule, len(rets), 1, rule=rule)
+    proto_t, size_t = ('index', strip_ids(U.term), const(1)), ('index', strip_ids(U.term), const(2))
+    ok = bool(rets)
+    witness = None
+    for pc, _ in rets:
+        for proto in (0, 1, 2, 3, 4):
+            for size in (0, 3, 4, 5, 8, 16, 255):
+                def leaf(t, proto=proto, size=size):
+                    t = strip_ids(t)
+                    if t == proto_t:
+                        return proto
+                    if t == size_t:
+                        return size
+                    if t[0] == 'global' and '.Protocol.' in t[1] and t[1].rsplit('.', 1)[1] in IANA['Proposal.Protocol']:
+                        return IANA['Proposal.Protocol'][t[1].rsplit('.', 1)[1]]
+                    raise tq.NoValue()
+                reachable = True
+                for a in strip_ids(pc):
+                    if not (tq.contains(a[0], proto_t) or tq.contains(a[0], size_t)):
+                        continue
+                    try:
+                        if bool(tq.teval(a[0], leaf)) != a[1]:
+                            reachable = False
+                            break
+                    except (tq.NoValue, Exception):
+                        continue
+                if reachable and proto in (2, 3) and size != 4:
+                    ok = False
+                    witness = witness or {'protocol': proto, 'spi size': size}
+    ctx.check(ok, rule, 'the decoder hands out an AH / ESP proposal only with a 4-octet SPI (what the kernel\'s SA identifier holds)',
+              key=(rule, 'ah-esp-spi-width'), site=ctx.site(pf, pf.node), detail={'accepted': witness})
 
 
 def cursor_loops(sv):
@@ -727,7 +775,7 @@ def check_ts(ctx, r1='W1', r2='W2'):
               key=(r2, 'ts-encode-loop'), site=ctx.site(tb2, tb2.node))
 
 
-def check_transform_attr(ctx):
+def check_transform_attr(ctx, rule='W2'):
     prog = ctx.prog
     c = prog.cls(M + 'Transform')
     pf, tb = c.lookup('parse'), c.lookup('to_bytes')
@@ -761,16 +809,16 @@ def check_transform_attr(ctx):
                     except (tq.NoValue, Exception):
                         vals[x] = None
                 ok = vals == {0x800E: True, 14: True, 0x800F: False, 0x000D: False, 0x8000 | 15: False}
-    ctx.check(ok, 'W2', 'Transform attribute: type 14 (KEYLEN, with or without the AF bit) carries the key length in its value field',
-              key=('W2', 'keylen-decode'), site=ctx.site(pf, pf.node))
+    ctx.check(ok, rule, 'Transform attribute: type 14 (KEYLEN, with or without the AF bit) carries the key length in its value field',
+              key=(rule, 'keylen-decode'), site=ctx.site(pf, pf.node))
     step_ok = len(cur) == 1 and cur[0][2] == const(4) and cur[0][3] == const(4)
     if not step_ok and len(attrs) == 1:
         pos = strip_ids(upos(attrs[0])[2])
         if pos[0] == 'elem':        # the same walk as a counting loop: positions 4, 8, ... below len(data)
             ra = [strip_ids(x) for x in tq.args(pos[1]).values()]
             step_ok = len(ra) == 3 and ra[0] == const(4) and ra[2] == const(4) and ra[1] == strip_ids(D.expr('len(%s)' % d[1]))
-    ctx.check(step_ok, 'W2',
-              'Transform attributes are 4-octet TV attributes following the 4 fixed octets', key=('W2', 'attr-step'), site=ctx.site(pf, pf.node))
+    ctx.check(step_ok, rule,
+              'Transform attributes are 4-octet TV attributes following the 4 fixed octets', key=(rule, 'attr-step'), site=ctx.site(pf, pf.node))
     pk, rest = first_pack(ctx.sval(tb).ret())
     me = ('param', 'self')
     ok = len(rest) == 1 and rest[0][0] == 'when' and tq.is_call(rest[0][2], 'struct.pack')
@@ -784,7 +832,7 @@ def check_transform_attr(ctx):
         ok = fmt_of(a[0]) is not None and layout(fmt_of(a[0]))[0] == [(0, 2), (2, 2)] and code == 0x800E \
             and a[2] == ('attr', me, 'keylen') and cond in (((('attr', me, 'keylen'), True),),
                                                            ((strip_ids(ctx.sval(tb).mk_cmp('is', ('attr', me, 'keylen'), NONE)), False),))
-    ctx.check(ok, 'W2', 'Transform: a key length is sent as attribute 0x800E (AF bit | 14) with the length as value', key=('W2', 'keylen-encode'),
+    ctx.check(ok, rule, 'Transform: a key length is sent as attribute 0x800E (AF bit | 14) with the length as value', key=(rule, 'keylen-encode'),
               site=ctx.site(tb, tb.node))
 
 
